@@ -214,6 +214,14 @@ func (lex *Lexer) Reset() {
 // pendingAtEnd reports whether the lexer holds the beginning of a token
 // that only a terminating rune would complete.
 func (lex *Lexer) pendingAtEnd() bool {
+	switch lex.state {
+	case LexerStrLit, LexerStrEscaped, LexerBacktickString,
+		LexerCommentBlock, LexerCommentBlockAsterisk,
+		LexerRuneLit, LexerRuneEscaped:
+		// inside a string, raw string, block comment or rune
+		// literal: a terminator would become part of it.
+		return false
+	}
 	return lex.buffer.Len() > 0 || lex.state != LexerNormal
 }
 
